@@ -70,7 +70,7 @@ type Ctx struct {
 	prog       *ssa.Program
 	ssaPkgs    map[string]*ssa.Package
 	cg         *CG
-	flow       *FlowAnalysis
+	flows      map[string]*FlowAnalysis
 	writerSet  map[*ssa.Function]bool
 
 	rules   []*RuleInfo
